@@ -17,7 +17,8 @@ import LitexModel.Packet.Fifo
       param.sink.valid   = sink.valid & sink.last & payload.sink.ready
       payload.sink.valid = sink.valid & param.sink.ready
       sink.ready         = param.sink.ready & payload.sink.ready
-      source.valid       = param.source.valid
+      source.valid       = param.source.valid & payload.source.valid     (fix of C16-packetfifo-buffered-param0;
+                                                                          before: param.source.valid only)
       source.{data,last} = payload.source.{data,last}          source.first = 0 (never written)
       source.param       = param.source.param
       param.source.ready   = source.valid & source.last & source.ready
@@ -27,7 +28,7 @@ import LitexModel.Packet.Fifo
   `PipeValid` depends on the `re` of the same cycle) and the register update `next we din re`.
 
   Depth 0 (kind `never`): with a wire as payload queue, `payload.sink.ready = source.valid & source.ready` and
-  `source.valid = param readable`, while a param push needs `payload.sink.ready`: from reset nothing is ever
+  `source.valid` needs the param queue readable, while a param push needs `payload.sink.ready`: from reset nothing is ever
   accepted or delivered (`sink.ready = 0`, `source.valid = 0` for ever; the data lines are don't-care while
   `source.valid = 0`).  The wire is therefore modelled as a queue that is never writable and never readable,
   which is port-equivalent from reset.  (`qd = 0` cannot be built by the constructor; it is given the same
@@ -100,8 +101,32 @@ structure PFAState where
   par : QSt Nat               -- param queue
 deriving DecidableEq, Repr
 
-/-- PacketFIFO over two queues of given kinds and depths. -/
+/-- PacketFIFO over two queues of given kinds and depths (the code that exists: `source.valid` needs both
+    queues readable). -/
 def packetFifoK (kp kq : QKind) (pd qd : Nat) : Elem PBeat PBeat PFAState where
+  init := { pay := { q := [], v := false, d := (0, false) }, par := { q := [], v := false, d := 0 } }
+  fwd s _ _ :=
+    (s.par.readable kq && s.pay.readable kp,
+     { data := { data := (s.pay.dout kp).1, param := s.par.dout kq }, first := false, last := (s.pay.dout kp).2 })
+  bwd s _ _ r :=
+    let svalid := s.par.readable kq && s.pay.readable kp
+    let slast  := (s.pay.dout kp).2
+    s.pay.writable kp pd (svalid && r) && s.par.writable kq qd (svalid && slast && r)
+  next s v t r :=
+    let svalid := s.par.readable kq && s.pay.readable kp
+    let slast  := (s.pay.dout kp).2
+    let rePay  := svalid && r                       -- payload.source.ready
+    let rePar  := svalid && slast && r              -- param.source.ready
+    let pready := s.pay.writable kp pd rePay
+    let qready := s.par.writable kq qd rePar
+    { pay := s.pay.next kp pd (v && qready) (t.data.data, t.last) rePay
+      par := s.par.next kq qd (v && t.last && pready) t.data.param rePar }
+
+/-- **The method before the fix** of finding C16-packetfifo-buffered-param0 (kept only for the negative witness
+    `packetFifoPre_defect`): `source.valid = param.source.valid` alone.  With a `SyncFIFOBuffered` payload queue
+    (readable two edges after the write) next to a `PipeValid` param queue (readable one edge after the write)
+    the source was valid on the stale payload output register. -/
+def packetFifoKPre (kp kq : QKind) (pd qd : Nat) : Elem PBeat PBeat PFAState where
   init := { pay := { q := [], v := false, d := (0, false) }, par := { q := [], v := false, d := 0 } }
   fwd s _ _ :=
     (s.par.readable kq,
@@ -113,8 +138,8 @@ def packetFifoK (kp kq : QKind) (pd qd : Nat) : Elem PBeat PBeat PFAState where
   next s v t r :=
     let svalid := s.par.readable kq
     let slast  := (s.pay.dout kp).2
-    let rePay  := svalid && r                       -- payload.source.ready
-    let rePar  := svalid && slast && r              -- param.source.ready
+    let rePay  := svalid && r
+    let rePar  := svalid && slast && r
     let pready := s.pay.writable kp pd rePay
     let qready := s.par.writable kq qd rePar
     { pay := s.pay.next kp pd (v && qready) (t.data.data, t.last) rePay
@@ -123,5 +148,9 @@ def packetFifoK (kp kq : QKind) (pd qd : Nat) : Elem PBeat PBeat PFAState where
 /-- `PacketFIFO(layout, payload_depth = pd, param_depth = qd - 1, buffered)`. -/
 def packetFifoAll (pd qd : Nat) (buffered : Bool) : Elem PBeat PBeat PFAState :=
   packetFifoK (qkind pd buffered) (qkind qd buffered) pd qd
+
+/-- The same instance with the method before the fix. -/
+def packetFifoAllPre (pd qd : Nat) (buffered : Bool) : Elem PBeat PBeat PFAState :=
+  packetFifoKPre (qkind pd buffered) (qkind qd buffered) pd qd
 
 end Litex.Packet
